@@ -4,7 +4,9 @@ import json, subprocess
 import glob
 cfg = {}
 for f in sorted(glob.glob('/verif/harness/c[0-9][0-9]/check.json')):
-    cfg.update(json.load(open(f)))
+    for k, v in json.load(open(f)).items():
+        if v.get('ready'):
+            cfg[k] = v
 props = [json.loads(l) for l in open('/verif/properties.jsonl')]
 try:
     na_reasons = json.load(open('/verif/not_applicable.json'))
